@@ -999,6 +999,18 @@ udp_pipe_recv(void *arg, nni_aio *aio)
 		return;
 	}
 
+	// Messages that arrived while no receive was posted are waiting
+	// in the queue; hand the oldest one over now, otherwise it would
+	// sit there until the peer happens to send another datagram.
+	if (nni_list_empty(&p->rx_aios) && !nni_lmq_empty(&p->rx_mq)) {
+		nni_msg *msg;
+		nni_lmq_get(&p->rx_mq, &msg);
+		nni_aio_set_msg(aio, msg);
+		nni_mtx_unlock(&ep->mtx);
+		nni_aio_finish(aio, 0, nni_msg_len(msg));
+		return;
+	}
+
 	nni_list_append(&p->rx_aios, aio);
 	nni_mtx_unlock(&ep->mtx);
 }
